@@ -930,7 +930,12 @@ pub fn gen_c10(seed: u64, i: u64, _thorough: bool) -> Value {
                         ActB::Add
                     }
                 }
-                17..=18 => ActB::Sleep(*rng.pick(&[DAY, 30 * DAY, 100 * DAY, 179 * DAY, 181 * DAY, 400 * DAY])),
+                17..=18 => ActB::Sleep(if rng.chance(1, 3) {
+                    // ages at the edge of the retention period, to the second
+                    *rng.pick(&[180 * DAY - 3000, 180 * DAY - 61, 180 * DAY - 1, 180 * DAY, 180 * DAY + 1, 180 * DAY + 61])
+                } else {
+                    *rng.pick(&[DAY, 30 * DAY, 100 * DAY, 179 * DAY, 181 * DAY, 400 * DAY])
+                }),
                 _ => ActB::GetSnapshot,
             });
         }
